@@ -102,10 +102,11 @@ CLAIMED = {
               'exactly that size, content symbolic, header counts enumerated over small, zero and overflow-provoking '
               'values, v1 and v2 layouts): every read stays inside the image and every write inside the allocation '
               '(cbmc pointer/bounds checks incl. pointer overflow), and a returned object satisfies the table '
-              'invariant (sorted transitions, type index < nty, nty > 0) under which C12 verifies the lookups.'),
+              'invariant (sorted transitions, type index < nty, nty > 0) under which C12 verifies the lookups; lib/tzmap.c: '
+              'tzm_open/tzm_find on well-formed compiled maps with symbolic keys return exactly the mapped zone.'),
         note=('open/fstat/mmap/munmap/close stubbed; header counts concrete per query (a symbolic allocation size '
-              'needs 65 GB in cbmc); images <= 98 bytes quick / 128 thorough; zone map (tzmap) compiler and lookup '
-              'not yet covered; the unchecked loader was a defect, fixed'),
+              'needs 65 GB in cbmc); images <= 98 bytes quick / 128 thorough; zone map compiler and corrupted map files '
+              'not covered; the unchecked loader and a non-terminating map lookup were defects, fixed'),
         technique='CBMC memory-safety checking of the TZif loader on symbolic file images',
         design='3/C19'),
     'C17': dict(
@@ -164,10 +165,11 @@ CLAIMED = {
               'unwinding bounds prove no other modifier loop is taken); dt_strpd on enumerated formats with arbitrary '
               'input bytes in exact-size objects (end pointer inside the input); dt_strfd on enumerated formats with '
               'arbitrary in-range values and buffers of 1..11 bytes (never writes or reports more than the buffer holds); likewise the '
-              'time and date-time parser and formatter drivers (dt_strpt, dt_strft, dt_strpdt, dt_strfdt) on enumerated formats.'),
+              'time and date-time parser and formatter drivers (dt_strpt, dt_strft, dt_strpdt, dt_strfdt) on enumerated formats, '
+              'and the escape decoder dt_io_unescape on arbitrary strings.'),
         note=('formats enumerated (a symbolic format byte re-enters the tokeniser loops); strings <= 4 (quick) / 8 bytes; '
               'duration driver, dt_io_write, the flex/bison front end and the needle search are not '
-              'yet covered; two defects found and fixed'),
+              'yet covered; three defects found and fixed'),
         technique='CBMC memory-safety checking of tokeniser, date parser and date formatter on exact-size objects',
         design='3/C10'),
     'C09': dict(
